@@ -71,6 +71,11 @@ func (exec *execCtx) assemble() {
 			if ok := exec.overtakePayloadInReverse(*prev); ok {
 				var rng *object.Range
 				if exec.ctxRange() != nil {
+					if exec.lastChildRange.GetLength() == 0 {
+						// requested range ends before the last child: zero
+						// range would mean its full payload
+						return
+					}
 					rng = &exec.lastChildRange
 				}
 				// payload of all children except the last are written, write last payload
